@@ -50,3 +50,55 @@ prop("C15", [_lazy("state", "rule_tls1"), _lazy("state", "rule_glob1"), _lazy("s
      "assignment does not count); independent pipelines share no written state (GLOB-1, CACHE-1).",
      "atomicity inside third-party objects (shared jinja2.Template instances are assumed re-entrant); schedules "
      "themselves are not explored")
+
+prop("C17", [_lazy("cli_fail", "rule_atom"), _lazy("cli_fail", "rule_exc1"), _lazy("cli_fail", "rule_exit1"),
+             _lazy("cli_fail", "rule_out1"), _lazy("cli_fail", "rule_load1")],
+     "Static decision of: every file-mutating call reachable from main is classified, and each write-capable one "
+     "is a `with` block whose body only writes locals defined before the open, with no call that can fail "
+     "reachable afterwards in that function or, after it returns, in its callers up to main (ATOM-1/2, CFG "
+     "dominance + interprocedural continuation); sample iterators are consumed eagerly during argument "
+     "processing; no exception handler on a CLI path continues normally around a pipeline stage (EXC-1); no "
+     "zero-status exit in a handler and entry points call main unwrapped (EXIT-1); nothing but constants and "
+     "run()'s final value is printed (OUT-1); each input loader opens its "
+     "path itself on every returning path (LOAD-1, sibling agreement of the three loaders).",
+     "behaviour of open()/the OS when the write itself fails; which exception each fault kind raises")
+
+prop("C05", [_lazy("registry", "rule_reg12"), _lazy("registry", "rule_reg3"), _lazy("registry", "rule_reg4"),
+             _lazy("registry", "rule_cmp1"), _lazy("registry", "rule_cmp2")],
+     "Static decision of: the registry mapping is written only by ModelRegistry, and every call that removes a "
+     "model is, in the same loop iteration and unconditionally, followed by snapshot loops retargeting all pointers "
+     "and re-parenting all child references to the one replacement, which is registered after the loop and built "
+     "from the field sets of exactly the models iterated (REG-1/2); ModelPtr.replace/replace_parent detach before "
+     "and attach after the retarget; no loop iterates a collection its body resizes unless over a snapshot (REG-3, "
+     "transitive size-mutation summaries); every merge is appended with its group to the returned list (REG-4); "
+     "similarity is any() over all configured comparators on both key sets, tested for every pair and recorded "
+     "symmetrically (CMP-1); the three comparators' normalised comparisons are the documented inclusive ones "
+     "(CMP-2).",
+     "the iff between merged classes and similarity chains (the closure loop works on run-time groups); 'untouched "
+     "models are unchanged'; union-of-fields of a merged model (delegated to merge_field_sets, see C01)")
+
+prop("C09", [_lazy("strtypes", "rule_det1"), _lazy("strtypes", "rule_det2"), _lazy("strtypes", "rule_det3"),
+             _lazy("strtypes", "rule_det4"), _lazy("strtypes", "rule_det5")],
+     "Static decision of the protocol clauses of C09: a registry class is returned as the detected type only where "
+     "a completed call of that class's own parser on the unmodified input dominates the return and the rejecting "
+     "handler cannot fall through (DET-1); the registry iterates its registration list, which is only appended to "
+     "or removed from (DET-2); remove() purges the class from the list and from both positions of the replace "
+     "relation, remove_by_name matches class name and actual-type name, resolve() returns a subset of its "
+     "arguments, and the CLI applies every disabled name before loading samples (DET-3); every pseudo-type class "
+     "implements the full interface and raises what the detector catches (DET-4); on CLI paths no registration "
+     "event is reachable after a removal event (DET-5, interprocedural event order).",
+     "that a parser accepts exactly the intended language; FloatString accepting whatever IntString accepts; the "
+     "parse/render/parse round trip; correctness of resolve()'s cover computation (e.g. resolve(Int, Float, Bool) "
+     "dropping Bool is out of reach); exceptions escaping third-party parsers")
+
+prop("C06", [_lazy("order", "rule_ord1"), _lazy("order", "rule_ndet1")],
+     "Static decision, for every input and every hash seed: each place where an unordered collection (set, "
+     "frozenset, set algebra, set-typed attribute or return value) is iterated, unpacked, joined or converted to a "
+     "sequence is found (exposure sites) and must be discharged: the sequence flows only into order-neutral "
+     "consumers (sorted/set/any/all/len/min/max/membership), a loop body whose effects are commutative per "
+     "element, a singleton guard, or a parameter / return value all of whose uses are neutral (followed "
+     "interprocedurally); anything else is a violation unless it carries one of the reasoned allow-list entries "
+     "(ORD-1). Calls of id/hash/random/time/environment/directory-listing primitives are allowed only at the "
+     "listed sites (NDET-1).",
+     "decided up to the stated assumptions: sorted() keys are total on their elements; dict and OrderedSet keep "
+     "insertion order; third-party calls are deterministic")
